@@ -410,7 +410,7 @@ def _run(ck: Check):
         "IEEE float64 rounding in the finite-difference stencil (bounded by the extrapolation's own error estimate)",
     ]
     t_start = time.time()
-    ok, broken = ck.lean_side({}, ["TTModel", "TTProofs.Props.C12", "drv_c12"], "TTProofs/Props/C12.lean")
+    ok, broken = ck.lean_side({}, ["TTProofs.Props.C12", "drv_c12"], "TTProofs/Props/C12.lean")
     st_ok = selftest(ck)
 
     out = {"bad": [], "skip": [], "evals": 0}
@@ -447,8 +447,8 @@ def _run(ck: Check):
             out["skip"].append(("<catalogue %d>" % i, "build-error", f"{type(e).__name__}: {str(e)[:160]}"))
             continue
         fam_seen[scen.family] = fam_seen.get(scen.family, 0) + 1
-        check_scenario(ck, scen, rng, 5 if thorough else 4, None if thorough else 2, out)
-        if thorough or i % 3 == 0:
+        check_scenario(ck, scen, rng, 5 if thorough else 4, None if thorough else 3, out)
+        if thorough or i % 2 == 0:
             check_reuse(ck, scen, rng, out)
         done += 1
     ck.extra["configurations_checked"] = done
@@ -458,7 +458,10 @@ def _run(ck: Check):
 
     # ---- verdict
     reported = set()
+    ck.extra["findings_total"] = len(out["bad"])
     for bad in out["bad"]:
+        if len(reported) >= 8:
+            break
         sig = "%s:%s:%s" % (bad["kind"], "/".join(bad["scenario"].split("/")[:2]), bad.get("leaf", "-"))
         if sig in reported:
             continue
